@@ -114,6 +114,51 @@ def cbmc_builders(rep, thorough):
                                   "statement": "for all payload contents, identifiers, variants and prior buffer contents: C06 (harness/cbmc/can_all_inputs.c)"}
 
 
+def c_text_vs_real(rep, exe, cs, n):
+    """The serialised C text of the builders (Gen/Cir.lean: memcpy, memset, nested calls, the regenerated
+    tables in read-only data) run by the Lean C semantics vs the compiled builders on the same cases:
+    correspondence check of the serialiser + semantics that the C06 code-level theorems rest on."""
+    import cirrun
+    gen = pipeline.translate()
+    if gen.get("failed") or gen.get("cir", {}).get("failed"):
+        return
+    ok, log = common.lake_build(["O1722.Gen.Cir", "O1722.Gen.Data", "O1722.CSem.Eval"])
+    if not ok:
+        return
+    step = max(1, len(cs.cases) // n)
+    idx = list(range(0, len(cs.cases), step))[:n]
+    mc = []
+    for i in idx:
+        ops = cs.cases[i]
+        buf = bytes.fromhex(ops[0].split()[2]) if ops[0].split()[2] != "-" else b""
+        t = ops[1].split()      # can_create a off fmt fid variant plhex
+        off, fmt, fid, var = int(t[2]), t[3], int(t[4]), int(t[5])
+        pl = bytes.fromhex(t[6]) if t[6] != "-" else b""
+        fn = "Avtp_Can_CreateAcfMessage" if fmt == "Can" else "Avtp_CanBrief_SetPayload"
+        mc.append((fn, [65536 + off, fid, 1048576, len(pl), var], list(buf), list(pl)))
+    res = cirrun.mem_cases(mc, "cirrun_can")
+    sub = common.Cases()
+    for i in idx:
+        sub.add(cs.cases[i][:3])
+    rcode, c_out, err = common.run_c(exe, sub.render())
+    got = common.split_cases(c_out)
+    nbad = 0
+    for k, i in enumerate(idx):
+        cl = got.get(k, [])
+        t = cs.tags[i]
+        want_r = "r -" if t["fmt"] == "Can" else "r " + res[k][0]
+        want_d = res[k][1]
+        ok_ = len(cl) >= 2 and cl[0] == want_r and cl[1].split()[-1] == (want_d if want_d else "-")
+        if not ok_:
+            nbad += 1
+            rep.violation("%s:c-text-vs-real:len%%4=%d" % (t["fmt"], t["len"] % 4),
+                          {"kind": "serialised-C-text-under-the-Lean-C-semantics-differs-from-the-compiled-code", "ops": cs.cases[i][:3],
+                           "observed_real_code": cl, "c_text_under_CSem": list(res[k]),
+                           "note": "'stuck' = the C semantics met undefined behaviour or ran out of fuel"})
+    rep.cov["c_text_vs_real"] = {"cases": len(idx), "disagreements": nbad,
+                                 "what": "Gen/Cir.lean (Avtp_Can_CreateAcfMessage, Avtp_CanBrief_SetPayload and everything they call) interpreted by CSem/Eval.lean vs the compiled library"}
+
+
 def check(rep, prop, tier, seed):
     rng = common.rng_for(prop, seed)
     thorough = tier == "thorough"
@@ -144,6 +189,7 @@ def check(rep, prop, tier, seed):
                             "ops": cs.cases[i], "observed_real_code": c_lines, "expected_by_model": l_lines, "stderr": err[-1200:]})
         diff_groups.setdefault(t["fmt"], []).append(i)
     cbmc_builders(rep, thorough)
+    c_text_vs_real(rep, exe, cs, 400 if thorough else 90)
     pipeline.report_proof_failures(rep, prop, res, diff_groups)
     cells = {(t["fmt"], t["len"]) for t in cs.tags}
     rep.cov.update(evaluations=len(cs.cases), distinct_nontrivial=len(cells),
